@@ -180,6 +180,14 @@ class FnFlow:
                     for prm, it in zip(lps, x.args[1:]):
                         for n, d, l in self.sources(it):
                             self.edges.append(Edge(n, prm, d - 1, l, x))
+            elif hasattr(ast, "Match") and isinstance(x, ast.Match) and isinstance(x.subject, ast.Name):
+                # ``match value: case str(): … case Mapping(): …`` is the isinstance chain
+                for case in x.cases:
+                    pats = case.pattern.patterns if isinstance(case.pattern, ast.MatchOr) else [case.pattern]
+                    kinds = {ast.unparse(q_.cls).split(".")[-1] for q_ in pats if isinstance(q_, ast.MatchClass) and not q_.patterns and not q_.kwd_patterns}
+                    if kinds:
+                        self.tests.append(Test(x.subject.id, kinds, case.pattern, list(case.body)))
+            if isinstance(x, ast.Call):
                 if astu.short_name(x) == "isinstance" and len(x.args) == 2 and isinstance(x.args[0], ast.Name):
                     t = x.args[1]
                     kinds = {ast.unparse(y).split(".")[-1] for y in (t.elts if isinstance(t, ast.Tuple) else [t])}
@@ -276,8 +284,8 @@ class FnFlow:
                 return True
             if sb is lca.test:
                 return False
-        if isinstance(lca, ast.Try):
-            pass
+        if hasattr(ast, "Match") and isinstance(lca, ast.Match) and sa is not lca.subject and sb is not lca.subject and sa is not sb:
+            return False        # two different cases of one match statement
         pa = (getattr(sa, "lineno", 0), getattr(sa, "col_offset", 0))
         pb = (getattr(sb, "lineno", 0), getattr(sb, "col_offset", 0))
         if pb < pa:
